@@ -2,7 +2,7 @@
    which is regenerated from the source on every run.  No proofs here. *)
 From BE Require Export Model.Basics.
 From BE Require Import Gen.ScoreConsts.
-Open Scope Z_scope.
+Local Open Scope Z_scope.
 
 Definition is_minor (s : strain) : bool := (strain_val s <=? 2)%nat.             (* value <= 2 *)
 Definition is_major (s : strain) : bool := ((2 <? strain_val s) && (strain_val s <=? 4))%nat.
